@@ -439,7 +439,9 @@ func hasLoneNewline(d dval) bool {
 	return false
 }
 
-func numIsFloat(s string) bool { return strings.ContainsAny(s, ".eE") || strings.Contains(strings.ToLower(s), "inf") }
+func numIsFloat(s string) bool {
+	return strings.ContainsAny(s, ".eE") || strings.Contains(strings.ToLower(s), "inf")
+}
 
 // sameData compares two data trees: strings byte for byte, numbers by exact
 // value and kind, objects with the same keys in the same order.
